@@ -35,7 +35,8 @@ namespace Nstd.Rc
   OPEN (what is still not covered): in-place writes THROUGH an embedded handle (`v.toString().append` on a box whose
   inner String block is itself shared); the String inside a Variant / Xml::Variant box is still flat content, so the
   cross-kind calls `Variant = String variable` / `String = variant.toString()` are not in the correspondence; boxed
-  elements of array / map payloads and Xml attributes (same container code, not driven); totality of the nested calls
+  values of map payloads and Xml attributes (same container code, not driven; Array payloads are: `aPushV`, `aGetV`);
+  totality of the nested calls
   (`apiRunN … = some s` is a hypothesis: fuel of the cascade, fewer than `maxBlocks` allocations, at most `famK` boxed
   elements per payload in the drivers' layout) is validated by the correspondence run and the examples only; cascade
   completeness (`nested_no_leak`, `mt_no_leak_quiescent`) excludes `d->next = s` (`pLink`: on a SHARED object it stores into
